@@ -92,3 +92,17 @@ Proof. intros K s stage rev. cbn [step]. destruct (reloaded s || (stage =? 0)%na
 Print Assumptions C19_clone_image.
 Print Assumptions C19_clone_image_after_failed_steps.
 Print Assumptions C19_failed_cloneinfo_changes_no_data.
+
+(** controller half (model Ctl): the executable trace oracle [c19_step w0] (a replica that enters the list
+    as RW at a start request has a scripted clone status other than "error") accepts every trace of the
+    controller model, histories with concurrent pairs included.  The clone status is a constant of the
+    scripted world: no request changes it ([clk_step_all]) *)
+From Jiva Require Import Ctl.Model Ctl.Corr Ctl.Oracles Ctl.Proofs Ctl.OracleProofsX Ctl.OracleProofs19.
+
+Theorem C19_controller_oracle_accepts_model_traces_with_pairs : forall xs rf0 n w0, (1 <= rf0)%nat ->
+  forallb xev_wf xs = true ->
+  Ctl.Oracles.walk (Ctl.Oracles.lift (c19_step w0) nopair) 0 (Ctl.Oracles.obs0 rf0 n w0) xs
+                   (Ctl.Corr.trace n (Ctl.Model.init rf0 w0) xs) = None.
+Proof. exact c19_oracle_model_x. Qed.
+
+Print Assumptions C19_controller_oracle_accepts_model_traces_with_pairs.
